@@ -49,6 +49,7 @@ class Ctx:
         self.side = []  # nonlinear side conditions (sqrt), kept out of branch queries
         self.sqrt_cache = {}
         self.sqrt_args = {}
+        self.aux = {}
         self.uf_cache = {}
         self.inputs = {}  # name -> z3 const
         self.fresh = 0
@@ -62,10 +63,13 @@ class Ctx:
         self.queries += 1
         return str(r)
 
+    def get_model(self):
+        return self.solver.model()
+
     def _refresh_model(self):
         r = self.check()
         if r == 'sat':
-            self.model = self.solver.model()
+            self.model = self.get_model()
         elif r == 'unsat':
             raise Abort("infeasible")
         else:
@@ -130,9 +134,10 @@ class Ctx:
             self.trace.append(d)
             self.solver.add(cond if d else z3.Not(cond))
             self.model = None
-            r = self.check()
-            if r == 'sat':
-                self.model = self.solver.model()
+            try:
+                self._refresh_model()
+            except Abort:
+                raise
             return d
         d = known
         other = z3.Not(cond) if d else cond
@@ -524,6 +529,10 @@ _isinstance = builtins.isinstance
 
 
 def sym_isinstance(obj, cls):
+    if getattr(type(obj), '_fv_float', False):
+        classes = cls if _isinstance(cls, tuple) else (cls,)
+        return any(k is float or k is SymFloatType or k is numbers.Real or k is numbers.Number or
+                   (_isinstance(k, type) and _isinstance(obj, k)) for k in classes)
     if _isinstance(obj, SymReal):
         classes = cls if _isinstance(cls, tuple) else (cls,)
         is_int = _isinstance(obj, SymInt)
@@ -558,6 +567,8 @@ class _FloatShim(type):
         return _isinstance(o, float) or (_isinstance(o, SymReal) and not _isinstance(o, SymInt))
 
     def __call__(cls, v=0.0):
+        if getattr(type(v), '_fv_float', False):
+            return v
         if _isinstance(v, SymInt):
             return SymReal(z3.ToReal(v.e))
         if _isinstance(v, SymReal):
@@ -834,6 +845,19 @@ class SymbolicI:
         self.ctx.inputs[name] = v
         return SymBool(v)
 
+    def fp(self, name, lo=None, hi=None):
+        """a binary64 input (finite, within [lo, hi] when given)"""
+        from fv import symf
+        v = z3.FP(name, symf.F64)
+        self.ctx.inputs[name] = v
+        self.ctx.add(z3.Not(z3.fpIsNaN(v)))
+        self.ctx.add(z3.Not(z3.fpIsInf(v)))
+        if lo is not None:
+            self.ctx.add(z3.fpGEQ(v, symf.fval(lo)))
+        if hi is not None:
+            self.ctx.add(z3.fpLEQ(v, symf.fval(hi)))
+        return symf.SymF(v)
+
     def choice(self, name, k):
         """k-way structural fork; returns a python int in range(k)."""
         v = self.int(name, 0, k - 1)
@@ -893,7 +917,7 @@ class SymbolicI:
                 rec['discharged'] += 1
                 return True
             if r == 'sat':
-                m0 = ctx.solver.model()
+                m0 = ctx.get_model()
                 m = self._dyadic_model(ctx) or m0
                 rec['failures'].append(Failure(label=label, verdict='sat', values=model_values(ctx, m),
                                                trace=list(ctx.trace)))
@@ -913,7 +937,7 @@ class SymbolicI:
                     ctx.solver.add(z3.IsInt(v * scale))
             ctx.solver.set("timeout", 3000)
             r = ctx.check()
-            return ctx.solver.model() if r == 'sat' else None
+            return ctx.get_model() if r == 'sat' else None
         except z3.Z3Exception:
             return None
         finally:
@@ -930,12 +954,31 @@ def model_values(ctx, m):
             out[name] = f"{val.numerator_as_long()}/{val.denominator_as_long()}"
         elif z3.is_true(val) or z3.is_false(val):
             out[name] = bool(z3.is_true(val))
+        elif z3.is_fp(val):
+            out[name] = fp_value_to_hex(val)
         elif z3.is_algebraic_value(val):
             a = val.approx(30)
             out[name] = f"{a.numerator_as_long()}/{a.denominator_as_long()}"
         else:
             out[name] = str(val)
     return out
+
+
+def fp_value_to_hex(val):
+    import struct
+    if z3.is_fprm(val):
+        return str(val)
+    if val.isNaN():
+        return 'nan'
+    if val.isInf():
+        return '-inf' if val.isNegative() else 'inf'
+    if val.isZero():
+        return '-0x0.0p+0' if val.isNegative() else '0x0.0p+0'
+    sign = 1 if val.sign() else 0
+    ebits = val.exponent_as_long(True)
+    sbits = val.significand_as_long()
+    bits = (sign << 63) | (ebits << 52) | sbits
+    return struct.unpack('>d', bits.to_bytes(8, 'big'))[0].hex()
 
 
 class ReplayVacuous(Exception):
@@ -954,7 +997,7 @@ class ConcreteI:
 
     def _get(self, name):
         if name not in self.values:
-            raise ReplayVacuous(f"no value for {name}")
+            return 0  # a variable the counterexample does not mention is unconstrained
         return self.values[name]
 
     def real(self, name, lo=None, hi=None):
@@ -965,6 +1008,10 @@ class ConcreteI:
 
     def int(self, name, lo=None, hi=None):
         return int(self._get(name))
+
+    def fp(self, name, lo=None, hi=None):
+        v = self._get(name)
+        return float.fromhex(v) if isinstance(v, str) and 'x' in v else float(v)
 
     def bool(self, name):
         return bool(self._get(name))
@@ -1006,7 +1053,7 @@ class ConcreteI:
 # --------------------------------------------------------------------------------------
 # exploration
 # --------------------------------------------------------------------------------------
-def explore(body, case, max_paths=200000, timeout_ms=10000, budget_s=None, reset=None, want_witness=3):
+def explore(body, case, max_paths=200000, timeout_ms=10000, budget_s=None, reset=None, want_witness=3, ctx_cls=None):
     """Explore all paths of body(I, case).  Returns a JSON-able record."""
     rec = dict(paths=0, aborted=0, queries=0, solver_s=0.0, unknown=0, obligations=0, discharged=0,
                failures=[], reached={}, labels={}, truncated=False, errors=[], decisions=0, witnesses=[])
@@ -1017,7 +1064,7 @@ def explore(body, case, max_paths=200000, timeout_ms=10000, budget_s=None, reset
             rec['truncated'] = True
             break
         prefix = work.pop()
-        ctx = Ctx(prefix, timeout_ms)
+        ctx = (ctx_cls or Ctx)(prefix, timeout_ms)
         Ctx.cur = ctx
         if reset:
             reset()
@@ -1049,7 +1096,7 @@ def explore(body, case, max_paths=200000, timeout_ms=10000, budget_s=None, reset
                             ctx.solver.add(z3.IsInt(v * 1024))
                     ctx.solver.set("timeout", 3000)
                     if str(ctx.solver.check()) == 'sat':
-                        m = ctx.solver.model()
+                        m = ctx.get_model()
                         obs = {}
                         for k, val in I.observed.items():
                             obs[k] = _eval_obs(m, val)
@@ -1067,6 +1114,12 @@ def explore(body, case, max_paths=200000, timeout_ms=10000, budget_s=None, reset
 
 
 def _eval_obs(m, val):
+    if hasattr(val, 'e') and not isinstance(val, (SymBool, SymReal)) and z3.is_fp(val.e):
+        v = m.eval(val.e, model_completion=True)
+        try:
+            return float.fromhex(fp_value_to_hex(v))
+        except Exception:
+            return str(v)
     if isinstance(val, SymBool):
         v = m.eval(val.e, model_completion=True)
         return bool(z3.is_true(v))
